@@ -47,11 +47,16 @@ def schedule(draw, max_events=5):
     evs = []
     used = set()
     for _ in range(n):
-        kind = draw(st.sampled_from(['before_pop', 'after_pop', 'guess', 'guess', 'markov_guess', 'markov_next', 'omen_next', 'remainder_guess']))
+        kind = draw(st.sampled_from(['before_pop', 'after_pop', 'guess', 'guess', 'markov_guess', 'markov_next', 'omen_next', 'remainder_guess', 'before_expand', 'before_expand']))
         idx = draw(st.integers(1, 10 if kind not in ('guess',) else 30))
         if (kind, idx) in used:
             continue
         used.add((kind, idx))
+        if kind == 'before_expand':
+            # a status / help request served when the pre-terminal is already the report's current one but not expanded yet (the
+            # report reads the grammar nodes the generator is about to use); quits are delivered at the other positions
+            evs.append([[kind, idx], draw(st.sampled_from(['', '', 'h', {'interleaved': '', 'lines': 1}, {'interleaved': '', 'lines': 5}, {'interleaved': 'h', 'lines': 3}]))])
+            continue
         evs.append([[kind, idx], draw(st.sampled_from(EVENTS + ['', 'q']))])
     return evs
 
@@ -111,6 +116,8 @@ def prop(case, rec):
         cls.append('status_or_help')
     if sm['quits']:
         cls.append('explicit_quit')
+    if sm.get('status_before_expansion'):
+        cls.append('status_before_first_use_of_the_current_preterminal')
     if sm.get('interleaved_events'):
         cls.append('interleaved_request')
     if sm.get('neighbour_runs'):
